@@ -395,6 +395,8 @@ def ecdsa_recover(sig, msghash, context=None):
     pubkey = _pubkey_parse(result)
     if not pubkey.is_valid:
         raise ValueError("Failed to recover public key")
-    if not ecdsa_verify(sig[:64], msghash, result):
+    # recovery does not demand a low-S signature (libsecp256k1 recovers from high-S as well)
+    der = ecdsa_signature_serialize_der(sig[:64])
+    if not pubkey.verify_ecdsa(der, msghash, low_s=False):
         raise ValueError("Failed to recover public key")
     return result
